@@ -1,5 +1,6 @@
 """C20 (PCB trace / plane resistance) and other checks whose cases are enumerated by a TLC model
 and validated by their own trace specification."""
+import json
 import re
 import warnings
 
@@ -282,10 +283,12 @@ def _c10_probe(st, target, sign, rng):
     elif I <= 1e-4 or V <= 1.2:
         return None
     V = sign * V
+    scale = 1.0
     if key == "ig" and rng.random() < 0.25:
         # nano-ampere ground currents: the rows of the table differ by less than 1e-8 A, and still differ
-        tab[key] = [[v * 1e-5 for v in row] for row in tab[key]]
-        const = const * 1e-5
+        scale = 1e-5
+        tab[key] = [[v * scale for v in row] for row in tab[key]]
+        const = const * scale
     # the sign of tabulated coordinates is ignored and the vi rows may come in any order (the table is a scatter)
     form = rng.choice(["plain", "plain", "negaxis", "descending"]) if len(ys) > 1 else "plain"
     if form == "negaxis":
@@ -299,7 +302,6 @@ def _c10_probe(st, target, sign, rng):
         flat = len({v for r in f for v in r}) == 1        # (a table of equal entries stays one: it is compared with the constant)
         row3 = [const for _ in xs] if flat else [lo + (hi - lo) * rng.random() for _ in xs]
         vis = [vi_of(y) for y in ys] + [y3]
-        scale = tab[key][0][0] / (lo + (hi - lo) * f[0][0] / max(fmax, 1))      # (1e-5 for a nano-ampere table)
         rows = [list(r) for r in tab[key]] + [[v if flat else v * scale for v in row3]]
         order = rng.choice([[1, 2, 0], [2, 0, 1], [1, 0, 2], [0, 2, 1]])
         tab["vi"] = [vis[k] for k in order]
@@ -354,6 +356,7 @@ def run_c10(ctx):
         else:
             raise tlc.TLCError(cnt["out"][-2000:])
     states = [s for s in states if s["qx"] != -99 and len(s["xs"]) >= 2]
+    states.sort(key=lambda s: json.dumps(s, sort_keys=True))     # (TLC's workers emit them in a varying order)
     n = 700 if ctx.quick else 20000
     if len(states) > n:
         states = rng.sample(states, n)
